@@ -60,6 +60,17 @@ def step (c : CS) (l : Line) : CS :=
       let c := settle c l "read" s' rc "read-rc"
       if rc = 0 ∧ l.nat "rc" = 0 ∧ d ≠ l.bytes "data" then
         mism c s!"SPEC[read-data] NV_Read(index {l.nat "handle"}, size {l.nat "size"}, offset {l.nat "offset"}) returned {l.str "data"}, model {hexOfBytes d}" else c
+  | "certify" =>
+      let c := ev c
+      let (s', rc, d) := nvCertify c.st (l.nat "auth") (l.nat "handle") (l.nat "size") (l.nat "offset")
+      let c := settle c l "certify" s' rc "read-rc"
+      if rc = 0 ∧ l.nat "rc" = 0 ∧ (l.nat "size" ≠ 0 ∨ l.nat "offset" ≠ 0) then
+        let c := if d ≠ l.bytes "data" ∨ l.nat "aoffset" ≠ l.nat "offset" then
+          mism c s!"SPEC[read-data] NV_Certify(index {l.nat "handle"}, size {l.nat "size"}, offset {l.nat "offset"}) attests {l.str "data"} at offset {l.nat "aoffset"}, model {hexOfBytes d}" else c
+        match c.st.find (l.nat "handle") with
+        | some i => if nameOf H i ≠ l.bytes "name" then mism c s!"SPEC[public-area] NV_Certify attests the index Name {l.str "name"}, model {hexOfBytes (nameOf H i)}" else c
+        | none => c
+      else c
   | "increment" =>
       let c := ev c
       let (s', rc) := nvIncrement c.st (l.nat "auth") (l.nat "handle")
